@@ -4,7 +4,7 @@ after an independent implementation of the documented tilde rule for non-raw for
 import os
 from pyvc.contract import *
 
-POOL = ["a", "a b", "x=y", "--bind=::1", "LABEL=a:", "a::b", "t=12:30", "x=~/p:~/q", "~/f", "~", "q'uote", 'dq"uote', "back\\slash", "new\nline", "*.py", "sp  ace",
+POOL = ["*", "a", "a b", "x=y", "--bind=::1", "LABEL=a:", "a::b", "t=12:30", "x=~/p:~/q", "~/f", "~", "q'uote", 'dq"uote', "back\\slash", "new\nline", "*.py", "sp  ace",
         "é日本", "-", "#x", "a;b", "(p)", "x=", "=", "k=:v", "a|b", "a&b", "a>b", "$", "tab\there", "trail ", " lead", "[x]", "{a,b}", "x=~", "~user-that-does-not-exist/z",
         "\\", '"""', "'''", "a\\nb"]
 
@@ -29,6 +29,7 @@ def _forms(text):
     lit = repr(text)
     out.append(("@(expr)", "@(%s)" % lit, False))
     out.append(("@([list])", "@([%s])" % lit, False))
+    out.append(("word@(expr)", "w@(%s)" % lit, "adjacent"))
     if "\n" not in text and not text.endswith("\\") and "'" not in text:
         out.append(("r'...'", "r'%s'" % text, False))
     if not text.endswith("\\") and '"""' not in text and not text.endswith('"'):
@@ -96,14 +97,18 @@ def argv(tier, seed):
             for pos in ("only", "first", "last"):
                 cid = len(cases)
                 args_src = {"only": src, "first": src + " z", "last": "z " + src}[pos]
-                want = _ref_tilde(text, "/xv-home") if expands else text
+                want = "w" + text if expands == "adjacent" else (_ref_tilde(text, "/xv-home") if expands else text)
                 want_argv = {"only": [want], "first": [want, "z"], "last": ["z", want]}[pos]
                 child = args_src if (pos == "only" and tier != "quick") or (pos == "only" and len(cases) % 5 == 0) else None
                 cases.append([cid, "recalias " + args_src, child])
                 meta[cid] = (text, fname, pos, want_argv)
+    open(os.path.join(d, "wmatch"), "w").close()   # so that a glob `w*` has something to match in the driver's directory
     json.dump(cases, open(os.path.join(d, "cases.json"), "w"))
     open(os.path.join(d, "driver.py"), "w").write(_DRIVER)
     failures, n, nontrivial, samples = [], 0, 0, []
+    kp = os.path.join(os.path.dirname(os.path.dirname(os.path.abspath(__file__))), "KNOWN_FINDINGS.json")
+    known = [k for k in json.load(open(kp))["findings"] if k["property"] == "C04" and k.get("status") == "known" and k.get("native_class")]
+    known_hits = {}
     try:
         p = subprocess.run([sys.executable, os.path.join(d, "driver.py"), os.path.join(d, "cases.json")], cwd=d, capture_output=True, text=True, timeout=1200,
                            env=dict(os.environ, PYTHONPATH=repo + os.pathsep + os.environ.get("PYTHONPATH", "")), stdin=subprocess.DEVNULL)
@@ -123,6 +128,19 @@ def argv(tier, seed):
                 obs = "the child process saw %r, the alias saw %r" % (child_argv, want_argv)
             else:
                 nontrivial += 1
+            if obs:
+                hit = None
+                for kf in known:
+                    try:
+                        if eval(kf["native_class"], {"text": text, "form": fname, "position": pos, "observed": obs}):
+                            hit = kf
+                            break
+                    except Exception:
+                        pass
+                if hit:
+                    known_hits[hit["id"]] = known_hits.get(hit["id"], 0) + 1
+                    obs = None
+                    continue
             if obs and len(failures) < 6:
                 failures.append({"clause": "one argument whose value is the text written (after the documented tilde rule for non-raw forms)",
                                  "inputs": {"text": text, "form": fname, "position": pos}, "observed": obs})
@@ -141,7 +159,9 @@ def argv(tier, seed):
     return {"kind": "bounded", "evaluations": n, "distinct_nontrivial": nontrivial, "failures": failures, "exhaustive": False,
             "bound": "%d argument strings x up to 8 delivery forms (@(expr), @([list]), r'..', r\"\"\"..\"\"\", plain literal, triple-quoted, f-string, bare word) x 3 positions; "
                      "a real child process for a subset (all single-argument cases in the thorough tier)" % len(POOL),
-            "domain": "real execer / run_subproc with a recording callable alias and `python -c` children; $HOME fixed", "samples": samples}
+            "domain": "real execer / run_subproc with a recording callable alias and `python -c` children; $HOME fixed", "samples": samples,
+            "known_lines": ["KNOWN-FINDING: property=C04 %s [%s] (%d cases)" % (kf["text"], kf["id"], known_hits[kf["id"]]) for kf in known if kf["id"] in known_hits],
+            "known_hits": known_hits}
 
 
 native_check("C04", "argv-is-what-was-written", "bounded", argv, doc="argument strings x literal / injection forms x positions through the real execer")
